@@ -464,6 +464,36 @@ pub fn gen_wide(rng: &mut Rng) -> Dag {
     Dag { nodes }
 }
 
+/// >= 2 distinct 32-bit spaces, each with >= 2 roots, each overflowing in the same isolation round:
+/// pairs of wide roots W (32.8k) that share one 32.8k leaf through 16-bit links (the shape of a GSUB with
+/// big single-subst lookups pairwise sharing a coverage table, all promoted to extension lookups)
+pub fn gen_two_spaces(rng: &mut Rng) -> Dag {
+    let pairs = 2 + rng.below(2) as usize; // 2 or 3 spaces
+    let mut nodes: Vec<Vec<Item>> = vec![vec![Item::Lit(vec![1])]];
+    let mut next = 1usize;
+    let mut root_links = vec![];
+    for p in 0..pairs {
+        let k = 2 + rng.below(2) as usize; // roots in this space
+        let shared = next + k;
+        let cov = 32_790 + 10 * p + rng.below(8) as usize;
+        for r in 0..k {
+            let sz = 32_800 + 7 * r + rng.below(40) as usize;
+            nodes.push(vec![Item::Lit(vec![10 + (p * 4 + r) as u8]), Item::Link(2, shared), Item::Run(0x50 + p as u8, sz)]);
+            root_links.push(next);
+            next += 1;
+        }
+        nodes.push(vec![Item::Lit(vec![40 + p as u8]), Item::Run(0x60 + p as u8, cov)]);
+        next += 1;
+    }
+    if rng.chance(1, 2) {
+        rng.shuffle(&mut root_links);
+    }
+    for w in root_links {
+        nodes[0].push(Item::Link(4, w));
+    }
+    Dag { nodes }
+}
+
 /// ill-formed use of the API: offset widths outside {2,3,4}
 pub fn gen_misuse(rng: &mut Rng) -> Dag {
     let n = 2 + rng.below(3) as usize;
@@ -543,6 +573,15 @@ pub fn corpus() -> Vec<Dag> {
         Dag { nodes: vec![vec![Link(2, 1), Link(4, 2), Link(4, 3)], vec![Link(2, 2)], vec![Link(2, 4), Link(2, 5), Link(4, 3)], vec![Link(2, 5)], vec![Run(112, 65526)], vec![]] },
         // "index out of bounds" in find_root_of_space
         Dag { nodes: vec![vec![Lit(vec![1]), Link(4, 1), Link(4, 2), Link(2, 3), Link(4, 3), Link(4, 4), Link(3, 5), Link(4, 10), Run(64, 65535)], vec![], vec![Lit(vec![3]), Link(2, 3), Link(3, 4), Link(4, 6), Link(3, 7), Run(66, 1)], vec![Lit(vec![4]), Link(2, 7), Run(67, 65533)], vec![Lit(vec![5]), Run(68, 2)], vec![Lit(vec![6]), Run(69, 2), Link(4, 10)], vec![Lit(vec![7]), Link(2, 8), Link(2, 11), Link(3, 12), Run(70, 99)], vec![Lit(vec![8]), Link(4, 9), Lit(vec![238, 7]), Run(71, 32766)], vec![], vec![Lit(vec![10]), Run(73, 2)], vec![Lit(vec![11]), Run(74, 2)], vec![Lit(vec![12]), Run(75, 99)], vec![Lit(vec![13]), Run(76, 99)]] },
+        // two 32-bit spaces with two roots each, both overflowing in the same isolation round
+        // (seeded C07/m3: to_isolate BTreeMap -> HashMap)
+        Dag { nodes: vec![
+            vec![Lit(vec![1]), Link(4, 1), Link(4, 2), Link(4, 4), Link(4, 5)],
+            vec![Lit(vec![10]), Link(2, 3), Run(0x50, 32840)], vec![Lit(vec![11]), Link(2, 3), Run(0x50, 32846)],
+            vec![Lit(vec![40]), Run(0x60, 32844)],
+            vec![Lit(vec![12]), Link(2, 6), Run(0x51, 32800)], vec![Lit(vec![13]), Link(2, 6), Run(0x51, 32806)],
+            vec![Lit(vec![41]), Run(0x61, 32804)],
+        ] },
         // single object, empty object, object of exactly 65535/65536 bytes behind a 16-bit link
         Dag { nodes: vec![vec![]] },
         Dag { nodes: vec![vec![Lit(vec![1, 2, 3])]] },
@@ -769,6 +808,11 @@ fn main() {
     for _ in 0..110 * scale {
         let d = gen_wide(&mut rng);
         run_case(&mut cx, &d, "wide", true);
+    }
+    // 4b. several spaces overflowing in the same isolation round
+    for _ in 0..12 * scale {
+        let d = gen_two_spaces(&mut rng);
+        run_case(&mut cx, &d, "two_spaces", true);
     }
     // 5. API misuse widths (model correspondence only)
     for _ in 0..60 * scale {
